@@ -7,6 +7,7 @@ import HdVerif.Proofs.VolumeAccess
 import HdVerif.Proofs.VolumeArgs
 import HdVerif.Proofs.VolumeLabels
 import HdVerif.Proofs.VolumeOrientAll
+import HdVerif.Proofs.VolumeConv
 /-! # C08  Volume operations never move a voxel in physical space
 
 Property theorems only (helper lemmas: `Proofs/Volume.lean`; model: `Model/Volume.lean`).
@@ -842,6 +843,26 @@ theorem random_permute_spec (axes drawn : List Int) (hv : randomAxesOk axes = tr
     (hr : isRearrangement axes drawn = true) : randomPermuteGood axes drawn = true :=
   randomPermute_good hv hr
 
+/-! ## `center_position` and `get_affine(output_convention)` -/
+
+/-- **`center_position`** (T9n: the source — `map_indices_to_reference(center_indices)` — run on symbols) is the affine at the
+continuous index `(n - 1) / 2`, and that point is the midpoint between the first and the last voxel. -/
+theorem center_position_spec (sq : Rat → Rat) (g : Geom) :
+    accCenterPosition sq g.entry g.dim = g.centerPosition.toList ∧
+    g.centerPosition = V3.smul (1 / 2) ((g.pos ⟨0, 0, 0⟩).add (g.pos ⟨g.n0 - 1, g.n1 - 1, g.n2 - 1⟩)) :=
+  ⟨acc_center_position sq g, centerPosition_midpoint g⟩
+
+/-- **`get_affine(output_convention)`**: for each of the 48 conventions the current source of
+`_transform_affine_to_convention` (with `_transform_affine_matrix`, from the convention L, P, H — T9p; `get_affine` forwards
+`self.affine`, the shape and (L, P, H): T9q), run on a symbolic affine, returns exactly `Geom.inConvention`; and that affine maps
+every voxel index to the SAME physical point, expressed in the requested convention (coordinate `k` = the component of the
+point along the `k`-th direction of the convention) — the voxels stay where they are, only the frame's axes are renamed. -/
+theorem get_affine_convention_spec (g : Geom) (o : Orient) (ho : o ∈ allOrients) :
+    convAffine o.1.code o.2.1.code o.2.2.code g.entry = some (g.inConvention o).rows12 ∧
+    getAffineForwards = ("LPH", "self.affine") ∧
+    ∀ j, (g.inConvention o).pos j = convPoint o (g.pos j) :=
+  ⟨convAffine_is_inConvention g o ho, rfl, fun j => inConvention_pos g o j⟩
+
 /-! ## patient orientation of EVERY geometry (rotated ones included) -/
 
 /-- **The rule of `get_closest_patient_orientation`, for every affine**: column 0 is given the patient axis (row) of its
@@ -916,6 +937,8 @@ theorem getitem_refuses_foreign_items (g : Geom) (items : List Item) :
   ⟨fun _ h => getitemG_no_foreign AxMap.size h, fun rest hl => getitemG_foreign_first AxMap.size g rest hl⟩
 
 /-! ## non-vacuity (round 2) -/
+example : (Dir.R, Dir.A, Dir.H) ∈ allOrients ∧ (g0.inConvention (.R, .A, .H)).t = ⟨-10, 20, 5 / 4⟩ ∧
+    g0.centerPosition = ⟨10 + (-1 / 2) * 1, -20 + (3 / 2) * (3 / 2), 5 / 4 + 2 * 2⟩ := by decide +kernel
 
 /-- a rotated geometry (3-4-5 rotation about z, anisotropic): scaled orthogonal, closest orientation A L H -/
 def gRot : Geom :=
